@@ -418,6 +418,11 @@ func c19Check(env *core.Env, ci any) (res core.Result) {
 				w.pos[c19Pos{vt[ti].EL, vt[ti].EC}] = true
 			}
 		}
+		if d.Line == 1 && d.Col == 1 && len(w.pos) > 0 {
+			// 1:1 is also where diagnostics about the file as a whole are put (back-end failures):
+			// such a diagnostic stays at 1:1 however the first token moves
+			w.pos[c19Pos{1, 1}] = true
+		}
 		if len(w.pos) == 0 {
 			w.any = true
 		} else {
